@@ -53,7 +53,7 @@ BOUNDS = {
     "quick": "One input family is a solver variable at a time, everything else concrete dyadic (noise powers of two) so float64 = exact arithmetic. "
              "L0 mapping-formalism kernels: blurred matrix (4x3, 6x4), data, reconstruction fully symbolic; or all noise values symbolic > 0; "
              "curvature_matrix_mirrored_from (merge interpreter): every m x m matrix (m = 4, 5) whose mirror entries are equal or one of them zero. "
-             "L1 w_tilde_data / w_tilde_curvature / preload tables against the W-tilde specification: kernels 3x3, 5x5, 1x3, 3x1, 3x5, 5x3; masks = all "
+             "L1 w_tilde_data / w_tilde_curvature / preload tables against the W-tilde specification: kernels 1x1, 3x3, 5x5, 1x3, 3x1, 3x5, 5x3; masks = all "
              "63 masks of a 2x3 window, all 15 of a 2x2 window (forked) and 12 named patterns with 1..9 unmasked pixels, minimal frame with the kernel "
              "footprint inside (some with a spare ring); symbolic: data | all noise values | data and noise | kernel entries (whole 3x3 kernel for "
              "2 unmasked pixels, 2-4 entries otherwise). L2 consumers of the tables (curvature from preload, off-diagonal blocks, data vector from "
@@ -1205,6 +1205,14 @@ def cases(tier):
     out.append((I, {"pattern": "L3", "ky": 3, "kx": 3, "specs": ["R33s2d", "R33s1n"], "mode": "kernel", "ksym": [1, 3, 8]}))
     out.append((I, {"pattern": "zig4", "ky": 3, "kx": 3, "specs": ["F2b", "F2", "R33s1"], "mode": "noise"}))
     out.append((I, {"pattern": "L3", "ky": 5, "kx": 5, "specs": ["R33s1", "F1"], "mode": "kernel", "ksym": [0, 12, 18]}))
+    # smallest legal PSF: a single pixel of value k (not 1: datasets are built un-normalised) scales B by k
+    out.append((W, {"pattern": "cross5", "ky": 1, "kx": 1, "mode": "kernel"}))
+    out.append((W, {"pattern": "all:2x2", "ky": 1, "kx": 1, "mode": "data+noise"}))
+    out.append((I, {"pattern": "cross5", "ky": 1, "kx": 1, "specs": ["R33s2d", "F2", "R34s1"], "mode": "data", "solve": True}))
+    out.append((I, {"pattern": "zig4", "ky": 1, "kx": 1, "specs": ["R33s1", "R34s2d"], "mode": "kernel"}))
+    out.append((I, {"pattern": "block4", "ky": 1, "kx": 1, "specs": ["F1", "R33s2d"], "mode": "noise"}))
+    out.append((I, {"pattern": "one", "ky": 1, "kx": 1, "specs": ["R33s1"], "mode": "kernel"}))
+    out.append((I, {"pattern": "one", "ky": 3, "kx": 3, "specs": ["R33s2d", "F1"], "mode": "data", "solve": True}))
     out.append((I, {"pattern": "L3", "ky": 1, "kx": 3, "specs": ["R33s1", "F1"], "mode": "kernel"}))
     out.append((I, {"pattern": "L3", "ky": 3, "kx": 1, "specs": ["F1", "R33s1"], "mode": "kernel"}))
     # noise in large units (raw counts): every w-tilde overlap is ~1e-9..1e-11, the formalisms must still agree exactly
